@@ -75,7 +75,8 @@ def try_read(rt, node):
     except grid.Stuck:
         return ("stuck", None)
     except Exception as e:
-        return ("err", type(e).__name__)
+        return ("err", type(e).__name__ + ("[no-remaining-shares-of-the-right-version]"
+                                             if "remaining shares of the right version" in str(e) else ""))
 
 
 CRISP = ["none", "version", "seqnum", "root_hash", "salt", "kN", "segsize", "datalen", "pubkey", "signature", "share_data", "enc_privkey"]
@@ -190,6 +191,13 @@ def campaign(ctx, rounds):
                                 pos = ctx.rng.randrange(DATA_OFFSET, len(raw)) if len(raw) > DATA_OFFSET else 0
                                 raw2 = raw[:pos] + bytes([raw[pos] ^ (1 << ctx.rng.randrange(8))]) + raw[pos + 1:]
                                 open(p, "wb").write(raw2)
+                                try:
+                                    _, data0 = read_share(p)
+                                    fl0 = share_fields(snapshots[2][key][DATA_OFFSET:])
+                                    inside = [nm for nm, (a, b) in fl0.items() if a <= pos - DATA_OFFSET < b]
+                                    kind = "flip:" + (inside[0] if inside else "beyond-share")
+                                except Exception:
+                                    kind = "flip:?"
                             elif kind == "flipfield":
                                 _, data = read_share(p)
                                 fl = share_fields(data)
@@ -233,8 +241,14 @@ def campaign(ctx, rounds):
                         if st == "ok" and rollback:
                             ctx.count("older-version-returned-with-rollback-shares-present")
                         else:
+                            # known finding: a share whose (unsigned) offset table was altered still verifies, but
+                            # counts as a separate "version" (verinfo contains the offsets) that can be chosen as best
+                            offs = any(kd in ("flip:offsets", "flipfield:offsets") for kd in tampered.values())
+                            sig = "newest-not-returned"
+                            if offs and st == "err" and "no-remaining-shares-of-the-right-version" in str(val):
+                                sig = "newest-not-returned:offset-table-altered"
                             ctx.violation("k intact shares of the newest version were reachable but the read did not return it",
-                                          dict(case, got=(val.hex()[:40] if st == "ok" else val)), "newest-not-returned")
+                                          dict(case, got=(val.hex()[:40] if st == "ok" else val)), sig)
                     ctx.case(repr(sorted(case.items())) if tampered else None)
                     ctx.count("campaign:" + st)
                     for kd in tampered.values():
@@ -304,9 +318,44 @@ def damaged_share_among_few_servers(ctx, rounds):
                 g.close()
 
 
+def offset_table_corpus(ctx):
+    """Fixed corpus for the open finding `newest-not-returned:offset-table-altered`."""
+    import grid
+    from allmydata.mutable.publish import MutableData
+    from allmydata.interfaces import SDMF_VERSION
+    with grid.Runtime(seed=5) as rt:
+        g = grid.Grid(grid.fresh_dir("c10o"), rt, num_servers=2, k=1, happy=1, n=2)
+        try:
+            c = g.clients[0]
+            content = b"B" * 40 + b"-v"
+            node = rt.wait(c.create_mutable_file(MutableData(content), version=SDMF_VERSION))
+            for (i, sh, p) in g.share_files(node.get_storage_index()):
+                raw, data = read_share(p)
+                (a, b) = share_fields(data)["offsets"]
+                for pos in range(a, b):
+                    open(p, "wb").write(raw[:DATA_OFFSET + pos] + bytes([raw[DATA_OFFSET + pos] ^ 8]) + raw[DATA_OFFSET + pos + 1:])
+                    st, val = try_read(rt, fresh_node(c, node.get_readonly_uri()))
+                    case = {"fmt": "SDMF", "k": 1, "n": 2, "servers": 2, "seed": 5,
+                            "tampered": ["%d/%d:flip:offsets@%d" % (i, sh, pos)], "result": st}
+                    if st == "ok" and val != content:
+                        ctx.violation("read returned bytes that no version ever published", dict(case, got=val.hex()[:80]),
+                                      "unpublished-bytes:campaign")
+                    elif st != "ok":
+                        sig = "newest-not-returned:offset-table-altered" if "no-remaining-shares-of-the-right-version" in str(val) \
+                            else "newest-not-returned"
+                        ctx.violation("k intact shares of the newest version were reachable but the read did not return it",
+                                      dict(case, got=val), sig)
+                    ctx.case(repr(sorted(case.items())))
+                    ctx.count("offset-corpus:" + st)
+                open(p, "wb").write(raw)
+        finally:
+            g.close()
+
+
 def run(ctx):
     import common
     common.setup_impl_path()
+    offset_table_corpus(ctx)
     single_share_cases(ctx, ctx.budget(3, 60))
     damaged_share_among_few_servers(ctx, ctx.budget(14, 200))
     campaign(ctx, ctx.budget(8, 300))
